@@ -297,6 +297,30 @@ def run(ctx):
               ('writeln("abc".length); writeln("abc"[1] is int); writeln("" is bool);', 'string s = "abc"; string e = ""; int k = 1; writeln(s.length); writeln(s[k] is int); writeln(e is bool);'),
               ('int k = 3; writeln("abc"[k] is int); writeln("u");', 'int k = 3; string s = "abc"; writeln(s[k] is int); writeln("u");'),
               ('writeln([f(1), f(2)].length is bool); writeln((not ([f(5)] is bool))); writeln(g);', 'int[] a = [f(1), f(2)]; writeln(a.length is bool); int[] b = [f(5)]; writeln((not (b is bool))); writeln(g);')]
+    # array literals that mix compile-time constant elements with run-time ones: the constant elements may be pre-packed (bool
+    # literals are packed into bytes at compile time), the twin builds every element at run time
+    mpre = 'bool t = g == 0; bool ff = g != 0; int one = g + 1; int two = g + 2; const bool CT = true; const int C5 = 5; '
+    for k in range(ctx.budget(24, 400)):
+        n = ctx.rng.randint(2, 19)
+        if k % 3 != 2:
+            vals = [ctx.rng.random() < 0.6 for _ in range(n)]
+            konst = [ctx.rng.random() < 0.5 for _ in range(n)]
+            cel = [(ctx.rng.choice(['true', 'CT', '(1 < 2)', 'not false']) if v else ctx.rng.choice(['false', 'not CT', '(2 < 1)'])) if c
+                   else ('t' if v else 'ff') for v, c in zip(vals, konst)]
+            rel = ['t' if v else 'ff' for v in vals]
+            show = ' '.join('write(a[%d]);' % j for j in range(n))
+            spairs.append((mpre + 'bool[] a = [%s]; %s writeln();' % (', '.join(cel), show), mpre + 'bool[] a = [%s]; %s writeln();' % (', '.join(rel), show)))
+        else:
+            vals = [ctx.rng.choice([1, 2]) for _ in range(n)]
+            konst = [ctx.rng.random() < 0.5 for _ in range(n)]
+            cel = [(ctx.rng.choice(['1', '(C5 - 4)', '(3 - 2)']) if v == 1 else ctx.rng.choice(['2', '(1 + 1)', '(C5 - 3)'])) if c
+                   else ('one' if v == 1 else 'two') for v, c in zip(vals, konst)]
+            rel = ['one' if v == 1 else 'two' for v in vals]
+            el = ctx.rng.choice(['int', 'byte'])
+            conv = (lambda x: x) if el == 'int' else (lambda x: '(%s is byte)' % x)
+            show = ' '.join('write(a[%d] is int);' % j for j in range(n))
+            spairs.append((mpre + '%s[] a = [%s]; %s writeln();' % (el, ', '.join(conv(x) for x in cel), show),
+                           mpre + '%s[] a = [%s]; %s writeln();' % (el, ', '.join(conv(x) for x in rel), show)))
     sjobs = []
     for i, (cf, rf) in enumerate(spairs):
         for w in (2, 4):
